@@ -62,6 +62,37 @@ CHECKS = {
         "assumptions": ["the reference precedence-climbing parser (harness/pkg/sql/parser/c03.go) states the documented ladder; when it rejects, nothing is asserted"],
         "runs": parruns(["VxC03_Expr4", "VxC03_Ops5", "VxC03_Clauses", "VxC03_SetOps"], ["VxC03_Expr5", "VxC03_Ops7", "VxC03_Clauses", "VxC03_SetOps"], []),
     },
+    "C07": {
+        "bounds": {"quick": "low-level entry points (Parse, ParseContext, ParseWithPositions, ParseWithRecovery) on every stream of <= 3 symbolic tokens (150-row table) at statement start, after SELECT, after SELECT a FROM t WHERE and after '; SELECT a FROM t ;', EOF-terminated, with at least one non-semicolon token; strict mode symbolic for <= 2 tokens; convenience layer: 11 SQL texts (valid, invalid, stray/leading semicolons, tokenizer failures, comments) through gosqlx.Parse/ParseBytes/ParseWithContext/ParseWithTimeout/Validate/ParseWithRecovery and parser.ParseBytes/Validate/ParseBytesWithTokens; every batch of <= 3 of those texts through ParseMultiple / ValidateMultiple",
+                   "thorough": "<= 4 symbolic tokens in each context"},
+        "outside": "streams longer than the bound; agreement of the convenience layer on texts outside the table (the layer only tokenizes and delegates; the delegation targets are covered symbolically)",
+        "assumptions": ["context.WithTimeout is replaced by a never-firing context under the engine (no timers)"],
+        "runs": parruns(["VxC07_Start3", "VxC07_Semi3", "VxC07_Strict2"], ["VxC07_Start4", "VxC07_Select4", "VxC07_Where4", "VxC07_Semi4", "VxC07_Strict2", "VxC07_Select3", "VxC07_Where3"], ["C07.same_verdict", "C07.same_tree"]) + [
+            {"pkg": "pkg/gosqlx", "harness": "VxC07_Wrappers", "args": {"replace": "context.WithTimeout=VxTimeoutCtx"}, "expect_asserts": ["C07.wrap_verdict", "C07.wrap_tree"]},
+            {"pkg": "pkg/gosqlx", "harness": "VxC07_Batch", "args": {"replace": "context.WithTimeout=VxTimeoutCtx"}, "expect_asserts": ["C07.batch_verdict", "C07.batch_tree"]},
+        ],
+    },
+    "C08": {
+        "bounds": {"quick": "inductive: (1) from any parser state satisfying I (depth=0, ctx=nil; tokens, cursor, current token, position mapping of length 0..2 arbitrary; strict/dialect symbolic) every entry point on every <= 3-token stream re-establishes I and keeps the configuration; (2) from any such state the outcome (verdict, error code, error location, tree) of every entry point on <= 3 tokens (statement start) / <= 2 tokens after SELECT equals a fresh instance's; (3) PutParser+GetParser / Reset give back an instance equal to a new one, Release clears per-parse state",
+                   "thorough": "(2) with <= 4 tokens"},
+        "outside": "tokenizer instances (their reuse is covered by the tokenizer harness VxC08_Tok*); histories that break I through data races or through callers writing unexported fields",
+        "assumptions": ["sync.Pool is modelled as a LIFO stack (a single-P process without GC)"],
+        "runs": parruns(["VxC08_Invariant2", "VxC08_Indep_Start3", "VxC08_Indep_Select2", "VxC08_Pool"], ["VxC08_Invariant", "VxC08_Indep_Start4", "VxC08_Indep_Select3", "VxC08_Pool"], ["C08.inv_depth", "C08.same_tree", "C08.same_location"]),
+    },
+    "C11": {
+        "bounds": {"quick": "Parser.ParseContext under a context that turns done at its k-th poll (k symbolic 0..63, both Canceled and DeadlineExceeded, arbitrary start depth 0..49): a 70-token nested statement (CTE, IN list, CASE, nested function calls, JOIN ON, BETWEEN, UNION, EXISTS sub-query), an INSERT ... RETURNING with function calls, and every <= 2-token continuation of SELECT / SELECT a FROM t WHERE over the 45-row expression table",
+                   "thorough": "<= 3-token continuations"},
+        "outside": "TokenizeContext polling (every 100 tokens: not reachable within the byte bounds; its pre-check is covered by VxC11_Tok); gosqlx.ParseWithContext adds only tokenisation in front of ParseContext",
+        "assumptions": ["the context is monotone: once done it stays done with the same error"],
+        "runs": parruns(["VxC11_Nested", "VxC11_Returning", "VxC11_Where2", "VxC11_Select2"], ["VxC11_Nested", "VxC11_Returning", "VxC11_Where3", "VxC11_Select3"], ["C11.is_ctx_err", "C11.same_tree", "C11.residue_depth"]),
+    },
+    "C12": {
+        "bounds": {"quick": "token soup: every EOF-terminated stream of <= 3 symbolic tokens (150-row table) at statement start and after 'SELECT a FROM t ;' — termination (unwinding budget) and errors-iff-strict-fails; scripts S1;S2 where each Si is one of 4 valid statements (incl. SHOW, whose first token is not a synchronisation keyword) under a symbolic corruption (none / delete / duplicate / replace by one of 12 tokens / truncate, position symbolic)",
+                   "thorough": "<= 4 soup tokens; scripts of 3 statements"},
+        "outside": "longer scripts; corruptions that introduce a statement-starting keyword after the first token (excluded by the property itself); 'nothing but the well-formed trees is returned' (the unchanged tree also returns the parsed prefix of a statement followed by junk)",
+        "assumptions": ["a statement is 'well-formed' iff strict parsing of it alone (with its terminating semicolon) succeeds with exactly one statement"],
+        "runs": parruns(["VxC12_Soup_Start3", "VxC12_Script2q"], ["VxC12_Soup_Start4", "VxC12_Soup_Semi4", "VxC12_Script2", "VxC12_Script3", "VxC12_Soup_Semi3"], ["C12.iff", "C12.no_loss", "C12.one_error_per_malformed"], generic=["unwind"]),
+    },
     "C13": {
         "bounds": {"quick": "every failing path of the C01 runs (same bounds): tokenizer errors and low-level parser errors", "thorough": "same as C01 thorough"},
         "outside": "wording of messages and hints; errors of the gosqlx wrappers (checked by C07 harness); reproducibility across Go map iteration order",
